@@ -81,7 +81,12 @@ def judge(s, res):
     if st == "crash":
         out.append(("C17 " + cl.crash_signature(res), "the client process died (exit status %s)" % res.get("rc")))
     elif st in ("hang", "leak"):
-        out.append(("C17 " + cl.hang_signature(res), (res.get("why") or "").split(" | ")[0] or "client goroutines left after Close"))
+        what = (res.get("why") or "").split(" | ")[0] or "client goroutines left after Close"
+        if cl.is_stuck(res):
+            what += "; goroutines of the client:\n" + (res.get("stacks") or "")[:6000]
+        out.append(("C17 " + cl.hang_signature(res), what))
+    elif st == "skipped":
+        pass
     elif st != "ok":
         raise RuntimeError("harness problem on script %s: %s %s" % (s.get("id"), st, res.get("why")))
     else:
